@@ -293,7 +293,7 @@ def native_outputs(native, shape, inputs):
     if md == 'ws':
         k, v = native_ok(native.call('metric_ws_counts', i=inputs['input'], p=inputs['pred'], t=inputs['target'], g=shape['g'],
                                      mode=shape['wsmode']))
-        return {'panic': v} if k != 'ok' else {'counts': v}
+        return {'panic': v} if k != 'ok' else {'counts': v if v == 'Err' else v[:3], '_empty': None if v == 'Err' else v[3]}
     if md == 'agg':
         kk = shape['k']
         prs = _strs(inputs, 'pr', kk)
@@ -368,6 +368,8 @@ def concrete_check(native, inputs, shape):
         G, P = st(gt), st(pr)
         if list(o['counts']) != [len(G & P), len(P - G), len(G - P)]:
             failed.append('whitespace counts == set comparison of ground-truth and predicted operations')
+        if o['_empty'] != (not G and not P):
+            failed.append('the empty flag is set iff neither side has operations')
         return failed
     if md == 'agg':
         if shape.get('mismatch'):
